@@ -10,7 +10,7 @@ from engine.core import (sym_int, sym_bool, check, note, s_and, s_or, s_not, s_e
 from engine import h2h, models, fingerprint
 from engine.runner import Shard
 
-MODELS = ['fmt_stub', 'HfSerialize', 'FrameFeed']
+MODELS = ['fmt_stub', 'HfSerialize', 'FrameFeed', 'HpackEnc', 'LenBytes']
 BOUNDS = {
     'weight': 'None or any integer -2^31..2^31 (symbolic)',
     'depends_on': 'None or 0..2^31-1 (symbolic)',
@@ -305,4 +305,9 @@ def shards(tier, seed):
                          expect=['updated', 'self-dependency']))
     out.append(Shard('headers_priority_server', h_headers_priority_server(),
                      expect=['refused']))
+    # a prioritised request whose header block is fragmented still carries the priority
+    # fields, in a first frame that fits the peer's frame-size limit (shared with C02)
+    from props import c02
+    out.append(Shard('fragmented_headers_priority', c02.h_fragment('headers+priority'),
+                     expect=['frames=1', 'frames=2', 'frames=3']))
     return out
